@@ -179,6 +179,8 @@ pub struct TreeParams {
     pub max_decorated: usize,
     /// root element names to try: `None` = the fixed name "r", `Some` = also every subset name
     pub root_from_subset: bool,
+    /// evaluate only the trees whose running number is `shard.0` modulo `shard.1`
+    pub shard: (u64, u64),
 }
 
 pub fn build(parents: &[usize], names: &[&str], decos: &[Deco], attr_names: &[&str]) -> Node {
@@ -239,9 +241,11 @@ pub fn for_each_tree(subset: &[PoolName], p: &TreeParams, f: &mut dyn FnMut(&Nod
                     // decorations: choose up to max_decorated nodes
                     let mut cur = vec![Deco::Plain; n + 1];
                     deco_rec(0, p.max_decorated, &decos, &mut cur, &mut |d: &[Deco]| {
-                        let node = build(&parents, &names, d, &attr_names);
                         count += 1;
-                        f(&node);
+                        if count % p.shard.1 == p.shard.0 {
+                            let node = build(&parents, &names, d, &attr_names);
+                            f(&node);
+                        }
                     });
                 }
             }
@@ -325,6 +329,7 @@ mod tests {
             max_nodes: 2,
             max_decorated: 2,
             root_from_subset: false,
+            shard: (0, 1),
         };
         let mut n = 0;
         let c = for_each_tree(&s, &p, &mut |_| n += 1);
